@@ -9,7 +9,6 @@ CLAIMED = {}
 NOT_APPLICABLE = {
     'C01': 'exactly-once across central queue, rings and steal rings under all interleavings is a whole-system schedule property over third-party moodycamel code, `std::thread` and lambdas; no per-function contract expresses it and the pool bodies are outside the extractable subset.',
     'C03': 'resize racing the ring fast path is a multi-thread interleaving property (stale `numRings_` between two loads in different functions); needs a schedule explorer, not contracts.',
-    'C05': 'check not built yet (contracts designed in DESIGN.md section 5, proof not closed in this framework yet)',
     'C06': 'deadlock freedom under nested waits is liveness over all programs; contracts here carry no termination-under-scheduling argument.',
     'C07': 'wake latency without the backstop depends on which futex waiter the kernel picks; timing/liveness, outside deductive reach.',
     'C08': 'needs a ledger across `resizeLocked`/destructor bodies that use `std::thread`, range-for over `std::deque`, moodycamel and RAII; extracting them would be a hand-made model (the ring-drain loops calling `task()` without a decrement were noted while reading, but cannot be *decided* by this machinery).',
@@ -337,3 +336,17 @@ CLAIMED['C02'] = dict(
     note="Proved RELATIVE to C01 (the pool runs every packaged task handed to it exactly once - assumed) and with the Future decrement-after-ready obligation proved under C18. Termination of "
          "the wait loops (progress) is not decided. Same spec file and extraction as C04. Destructors call wait() (checked by reading).",
     technique="CBMC DFCC function + loop contracts over extracted bodies with a credit-ledger ghost")
+
+CLAIMED['C05'] = dict(
+    category='proof',
+    text="Rely/guarantee contracts (CBMC DFCC) on the extracted bodies of TaskSetBase::trySetCurrentException and testAndResetException (exceptions build) with interference on the guard word "
+         "before every atomic access, and on the packaged-task bodies of packageTask / packageTaskNoIncrement and invokeInline with a user functor that may throw (throw flag, rule R15). "
+         "Obligations: exception_ is written only by the winner of the kUnset -> kSetting CAS; kSet is published (release) only by that winner and only after the exception was stored; the set "
+         "is cancelled by the capture; testAndResetException moves the exception out only while the guard is kSet (acquire), resets the guard to kUnset (release) before rethrowing, rethrows at "
+         "most once per call and otherwise reports canceled_; a throwing body is captured, does not escape the packaged task, and the outstanding count is still lowered exactly once (release) "
+         "with no exception in flight, the task-set stack balanced.",
+    note="A-SC; single waiter assumed (two concurrent wait() calls on one set could both observe kSet with a plain load and both move exception_ out - not a documented use, stated); the rely "
+         "(specs/c05_exceptions.c others_act) and the R/G meta-theorem are trusted; C++ exception semantics are rendered by a throw flag, exact for try { one invocation } catch (...) { handler }. "
+         "'First captured exception': later throwers lose the CAS and their exception is dropped (by design). That wait() looks at the exception only after completion is the C02 wait units. "
+         "A functor run inline by schedule() propagating its exception to the caller is documented behaviour and not under contract.",
+    technique="CBMC DFCC function contracts, rely/guarantee via interference before each atomic macro on the guard word, throw-flag rendering of try/catch")
